@@ -54,7 +54,7 @@ ASSUMPTIONS = [
 
 @st.composite
 def cases(draw):
-    spec = draw(wfspecs())
+    spec = draw(wfspecs({'families': True}))
     outcomes = draw(outcome_maps(spec))
     sched = draw(schedules(40))
     return {'spec': spec, 'outcomes': outcomes, 'schedule': sched}
@@ -122,6 +122,8 @@ def spec_features(spec):
             while stack:
                 n = stack.pop()
                 if 'op' in n:
+                    if 'fam' in n:
+                        f.add('family-trigger')
                     if n['op'] == '|':
                         f.add('or')
                     stack += n['args']
@@ -221,47 +223,73 @@ def oracle(spec, outcomes, model: Model, drv: Driver, shut, quiescent, classes,
         launched = set(seen)
         if not shut and not quiescent:
             return viol     # inconclusive (cap hit)
-        extra = launched - ran
-        missing = ran - launched
-        # known finding: a parentless instance that follows (on the same
-        # task) a cycle point at which the task is parented is never
-        # auto-spawned if that parented instance never spawns
-        chain = sorted(
-            (t, p) for (t, p) in missing
-            if model.parentless(t, p) and any(
-                q < p and (t, q) not in launched
-                and not model.parentless(t, q)
-                for q in model.valid[t]))
-        if chain:
-            viol.append(Violation(
-                f'{prop}:missing-run:parentless-point-after-unspawned-parented-point',
-                f'parentless instances never auto-spawned: {chain} (the '
-                f'task is parented at an earlier point whose instance never '
-                f'spawned); all missing: {sorted(missing)}'))
-            return viol
-        # known finding: an instance whose only parents at/after the start
-        # point are absolute ones, but which also has a pre-initial
-        # (ignored) non-absolute parent, is neither auto-spawned (cylc's
-        # is_parentless wants *only* absolute triggers or *only* pre-initial
-        # parents) nor spawned by the absolute parent's output (only its
-        # first child is)
-        def mixed(t, p):
+
+        # Known findings (three shapes, two root causes) are recognised by
+        # construction: an instance of a known shape that the scheduler never
+        # spawned is taken out of the reference closure together with
+        # everything that only it leads to; whatever difference remains
+        # between that closure and the launched set is reported as an
+        # ordinary violation.
+        def atom_hit(a, p, done_k):
+            q = a['abs'] if a.get('abs') is not None else p + (
+                a.get('off') or 0)
+            outs = done_k.get((a['t'], q), ())
+            return q, any(o in outs for o in (
+                ['succeeded', 'failed'] if a['out'] == 'finished'
+                else [a['out']]))
+
+        def known_shape(t, p, done_k):
             atoms = [a for tr in model.trees_at(t, p) for a in atoms_of(tr)]
-            return (
-                model.parentless(t, p)
-                and any(a.get('abs') is not None for a in atoms)
-                and any(a.get('abs') is None for a in atoms)
-                and any(q < p and model.is_valid(t, q)
-                        for q in model.valid[t]))
-        mix = sorted(i for i in missing if mixed(*i))
-        if mix and not extra:
+            later = any(q < p for q in model.valid[t])
+            # 1. a parentless instance that follows (on the same task) a
+            # point at which the task is parented and never spawned
+            if model.parentless(t, p) and any(
+                    q < p and (t, q) not in launched
+                    and not model.parentless(t, q)
+                    for q in model.valid[t]):
+                return 'parentless-point-after-unspawned-parented-point'
+            # 2. only absolute parents at/after the start point plus a
+            # pre-initial (ignored) regular one; not the first instance
+            if (model.parentless(t, p) and later
+                    and any(a.get('abs') is not None for a in atoms)
+                    and any(a.get('abs') is None for a in atoms)):
+                return 'absolute-plus-preinitial-parents-not-first-child'
+            # 3. not parentless (regular parents at/after the start point);
+            # prerequisite true through a completed absolute trigger while
+            # no regular parent produced an output that would spawn it
+            if not model.parentless(t, p) and later:
+                abs_done = reg_done = False
+                for a in atoms:
+                    q, hit = atom_hit(a, p, done_k)
+                    if a.get('abs') is not None:
+                        abs_done = abs_done or hit
+                    elif q >= model.start:
+                        reg_done = reg_done or hit
+                if abs_done and not reg_done:
+                    return ('absolute-parent-done-other-parents-silent-'
+                            'not-first-child')
+            return None
+
+        never = {}
+        ran_k, done_k = ran, done
+        for _round in range(12):
+            roots = {}
+            for (t, p) in sorted(ran_k - launched):
+                shape = known_shape(t, p, done_k)
+                if shape:
+                    roots[(t, p)] = shape
+            if not roots:
+                break
+            never.update(roots)
+            ran_k, done_k, _amb = model.closure(result_of, never=set(never))
+        for shape in sorted(set(never.values())):
+            insts = sorted(i for i, sh in never.items() if sh == shape)
             viol.append(Violation(
-                f'{prop}:missing-run:absolute-plus-preinitial-parents-'
-                f'not-first-child',
-                f'never spawned: {mix} (only absolute parents at/after the '
-                f'start point plus a pre-initial one; not the first '
-                f'instance of the task); all missing: {sorted(missing)}'))
-            return viol
+                f'{prop}:missing-run:{shape}',
+                f'never spawned: {insts}; all instances of the original '
+                f'closure that did not run: {sorted(ran - launched)}'))
+        extra = launched - ran_k
+        missing = ran_k - launched
         if extra:
             viol.append(Violation(
                 f'{prop}:extra-run',
@@ -271,7 +299,21 @@ def oracle(spec, outcomes, model: Model, drv: Driver, shut, quiescent, classes,
             viol.append(Violation(
                 f'{prop}:missing-run',
                 f'instances in the model closure never launched: '
-                f'{sorted(missing)} (shutdown={shut}, reason={reason!r})'))
+                f'{sorted(missing)} (shutdown={shut}, reason={reason!r}'
+                + (f'; closure taken without the known-shape instances '
+                   f'{sorted(never)}' if never else '') + ')'))
+        if never:
+            # waiting tasks left behind by the unspawned instances
+            waiters = []
+            for (t, p) in model.instances():
+                if (t, p) in ran_k or (t, p) in never:
+                    continue
+                if model.prereq(t, p, done_k):
+                    continue
+                if model.parentless(t, p) or any(
+                        o in done_k.get((u, q), ())
+                        for (u, q, o) in model.real_atoms(t, p)):
+                    waiters.append((t, p))
         if waiters:
             pass
         elif not shut:
